@@ -1,5 +1,13 @@
 """C02: validation guards of the readout schedule and the table of Detector.empty -> Gallina.
 
+Every function named below is first brought into NORMAL FORM by translator/c02_norm.py (behaviour-preserving rewrites
+with explicit side conditions: helpers of the same module / class / package inlined, single-assignment locals
+substituted, guard clauses == elif chains, early return / continue == nested if, module-level literal constants, loops over
+constant tuples unrolled, manual counter == enumerate, constant tests folded, match / chained comparison / conditional
+expression); the shapes listed here are shapes of the normal form, so a refactoring that does not change what a
+function does translates to the same table, and one that does (a dropped argument, an alias taken before a
+reassignment, a guard clause with the wrong polarity) does not.
+
 Extracted (fail closed on any other shape):
 
 * `Readout.__init__`              (pyxel/exposure/readout.py)   -> g_ctor, and g_ndarray: is a numpy array given as
@@ -40,6 +48,35 @@ import ast
 from pathlib import Path
 
 from .common import HEADER, body_no_doc, fail, find_func, find_funcs, parse
+from .c02_norm import normalise
+
+# calls the recognisers below key on (never inlined by the normaliser)
+KEEP_CALLS = {"self._set_steps", "calculate_steps", "eval_range", "load_table", "self.convert_df_to_array"}
+_REPO: list = []             # the tree being translated (for helpers imported from other modules of the package)
+NORM_LOG: list = []          # which normalisations were applied in the last translation (evidence)
+
+
+def _norm(tree: ast.Module, fn: ast.FunctionDef, cls: ast.ClassDef | None = None, abbreviate=None) -> ast.FunctionDef:
+    """The function after the behaviour-preserving normalisations of translator/c02_norm.py (helpers of the same module /
+    class inlined, single-assignment locals substituted, guard clauses == elif chains, module constants resolved, loops
+    over constant tuples unrolled, constant tests folded, ...): the recognisers below read the NORMAL FORM."""
+    try:
+        out, log = normalise(tree, fn, cls, keep=KEEP_CALLS, abbreviate=abbreviate, repo=_REPO[0] if _REPO else None,
+                             mutators=("set_readout",))
+    except RecursionError:
+        raise
+    except Exception as ex:      # noqa: BLE001 -- a defect of the normaliser must not take the check down: read the text as is
+        out, log = fn, [f"NORMALISER FAILED ({type(ex).__name__}: {ex}); function read without normalisation"]
+    if log:
+        NORM_LOG.append(f"{(cls.name + '.') if cls is not None else ''}{fn.name}: {' '.join(log)}")
+    return out
+
+
+def _cls_of(tree: ast.Module, name: str) -> ast.ClassDef:
+    c = [n for n in ast.walk(tree) if isinstance(n, ast.ClassDef) and n.name == name]
+    if len(c) != 1:
+        fail(None, f"class {name}: found {len(c)}")
+    return c[0]
 
 BUCKETS = {"scene": "Scene", "photon": "Photon", "charge": "Charge", "pixel": "Pixel", "signal": "Signal",
            "image": "Image"}
@@ -58,6 +95,14 @@ def _guard_kind(test: ast.expr, X: str, S: str) -> str:
         f"not {S} < {X}[0]": "GStartLtFirst",           # positive form: NaN is refused
         f"not {X}[0] > {S}": "GStartLtFirst",
         f"not np.all(np.diff({X}) > 0)": "GIncreasing",
+        f"not (np.diff({X}) > 0).all()": "GIncreasing",
+        f"not np.all({X}[1:] > {X}[:-1])": "GIncreasing",
+        f"{X}[0] == 0.0": "GFirstNonZero",
+        f"0 == {X}[0]": "GFirstNonZero",
+        f"len({X}.shape) != 1": "GNdim1",
+        f"not {X}.ndim == 1": "GNdim1",
+        f"not {X}.size": "GNonEmpty",
+        f"{X}.size < 1": "GNonEmpty",
         f"{X}.ndim != 1": "GNdim1",
         f"{X}.size == 0": "GNonEmpty",
     }
@@ -99,7 +144,7 @@ def _collect(stmts, X: str, S: str, is_commit) -> list[str]:
                     fail(st, "validation after the schedule has been stored")
                 continue
             guards += _guards_of_if(st, X, S)
-        elif isinstance(st, (ast.Assign, ast.AnnAssign, ast.Expr, ast.Pass)):
+        elif isinstance(st, (ast.Assign, ast.AnnAssign, ast.Expr, ast.Pass, ast.Import, ast.ImportFrom)):
             if _contains_raise(st):
                 fail(st, "unexpected raise")
         elif isinstance(st, ast.Raise):
@@ -143,19 +188,31 @@ def _is_ndarray_conversion(st: ast.stmt) -> bool:
                                                   "np.array(times).tolist()"))
 
 
+def _is_both_given_guard(st: ast.stmt) -> bool:
+    """`if times is not None and times_from_file is not None: raise ...` (normal form of the first branch of the
+    source-selection chain): fires only when BOTH sources are given, which no caller of the model does."""
+    if not (isinstance(st, ast.If) and not st.orelse and _is_raise_body(st.body) and isinstance(st.test, ast.BoolOp)
+            and isinstance(st.test.op, ast.And)):
+        return False
+    return sorted(ast.unparse(v) for v in st.test.values) == ["times is not None", "times_from_file is not None"]
+
+
 def _ctor_guards(fn: ast.FunctionDef) -> tuple[bool, list[str]]:
     names = [a.arg for a in fn.args.args]
     if names != ["self", "times", "times_from_file", "start_time", "non_destructive"]:
         fail(fn, "Readout.__init__ signature")
     body = body_no_doc(fn)
     # the chain that selects where the times come from
-    k = next((i for i, st in enumerate(body) if isinstance(st, ast.If) and "times_from_file" in ast.unparse(st.test)), None)
+    k = next((i for i, st in enumerate(body) if isinstance(st, ast.If) and "times_from_file" in ast.unparse(st.test)
+              and not _is_both_given_guard(st)), None)
     if k is None:
         fail(fn, "Readout.__init__: source-selection chain not found")
     ndarray = False
     for st in body[:k]:
         if _is_ndarray_conversion(st):
             ndarray = True
+            continue
+        if _is_both_given_guard(st):
             continue
         if not isinstance(st, (ast.Assign, ast.AnnAssign)) or _contains_raise(st) or _assigns_to(st, "times"):
             fail(st, "unexpected statement before the source selection")
@@ -395,7 +452,8 @@ def _container_prog(repo: Path, cname: str) -> list:
         if [ast.unparse(b) for b in cls.bases] != ["ArrayBase"]:
             fail(cls, f"{cname} must derive from ArrayBase only")
         inits = [n for n in cls.body if isinstance(n, ast.FunctionDef) and n.name == "__init__"]
-        if len(inits) != 1 or [ast.unparse(x) for x in body_no_doc(inits[0])] != ["super().__init__(shape=(geo.row, geo.col))"]:
+        if len(inits) != 1 or [ast.unparse(x) for x in body_no_doc(_norm(parse(repo, rel), inits[0], cls))] not in (
+                ["super().__init__(shape=(geo.row, geo.col))"], ["super().__init__((geo.row, geo.col))"]):
             fail(cls, f"{cname}.__init__ must only call ArrayBase.__init__")
         brel, bpieces, bother = CONTAINERS["ArrayBase"]
         base = _class(parse(repo, brel), "ArrayBase")
@@ -409,7 +467,9 @@ def _container_prog(repo: Path, cname: str) -> list:
         _check_init_attrs(cls, pieces, other)
     if len(own) != 1:
         fail(cls, f"{cname}.empty: found {len(own)}")
-    return _cprog(own[0], pieces)
+    if own[0] in cls.body:
+        return _cprog(_norm(parse(repo, rel), own[0], cls), pieces)
+    return _cprog(_norm(parse(repo, brel), own[0], base), pieces)
 
 
 def _scene_fresh(repo: Path) -> list:
@@ -420,6 +480,7 @@ def _scene_fresh(repo: Path) -> list:
     init = [n for n in cls.body if isinstance(n, ast.FunctionDef) and n.name == "__init__"][0]
     if [a.arg for a in init.args.args] != ["self"]:
         fail(init, "Scene.__init__ signature")
+    init = _norm(parse(repo, rel), init, cls)
     got = [_reset_stmt(st, pieces) for st in body_no_doc(init)]
     if [g for g in got if g] != ["PScene"]:
         fail(init, "Scene.__init__ must create an empty _source")
@@ -434,7 +495,7 @@ def _read_stores(repo: Path) -> bool:
            and any(ast.unparse(d) == "property" for d in n.decorator_list)]
     if len(fns) != 1:
         fail(cls, f"Charge.array property: found {len(fns)}")
-    body = [ast.unparse(st) for st in body_no_doc(fns[0])]
+    body = [ast.unparse(st) for st in body_no_doc(_norm(parse(repo, rel), fns[0], cls))]
     if body == ["if not self._frame.empty:\n    self._array = self.convert_df_to_array()", "return self._array"]:
         return True
     if body == ["if not self._frame.empty:\n    return self.convert_df_to_array()", "return self._array"]:
@@ -490,6 +551,8 @@ def _reset_policy(arg, loop_body, call_stmt) -> str:
     alt = (ND, "detector.readout_properties.non_destructive")
     if arg is None:
         return "LAlways"
+    while isinstance(arg, ast.Call) and ast.unparse(arg.func) == "bool" and len(arg.args) == 1 and not arg.keywords:
+        arg = arg.args[0]
     t = ast.unparse(arg)
     if t in ("True", "reset=True"):
         return "LAlways"
@@ -654,8 +717,7 @@ def _set_readout_policy(fn: ast.FunctionDef) -> str:
                                   "from its three arguments")
 
 
-def _check_run_pipeline_call(tree: ast.Module) -> None:
-    fn = find_func(tree, "run_pipeline")
+def _check_run_pipeline_call(fn: ast.FunctionDef) -> None:
     calls = [n for n in ast.walk(fn) if isinstance(n, ast.Call) and isinstance(n.func, ast.Attribute)
              and n.func.attr == "set_readout"]
     if len(calls) != 1:
@@ -678,32 +740,54 @@ def extract(repo: Path) -> dict:
     t_rp = parse(repo, "pyxel/detectors/readout_properties.py")
     t_det = parse(repo, "pyxel/detectors/detector.py")
 
-    g_ndarray, g_ctor = _ctor_guards(find_func(t_ro, "__init__", "Readout"))
+    NORM_LOG.clear()
+    _REPO[:] = [repo]
+    c_ro = _cls_of(t_ro, "Readout")
+    g_ndarray, g_ctor = _ctor_guards(_norm(t_ro, find_func(t_ro, "__init__", "Readout"), c_ro))
 
     f = _setter(t_ro, "Readout", "times")
-    if [a.arg for a in f.args.args] != ["self", "value"]:
+    if len(f.args.args) != 2 or f.args.args[0].arg != "self":
         fail(f, "times setter signature")
+    V = f.args.args[1].arg
+    f = _norm(t_ro, f, c_ro)
     body = body_no_doc(f)
-    # first statement: value -> `values` array (scalar wrapped into a 1-element array)
-    if not (body and isinstance(body[0], ast.If) and ast.unparse(body[0].test) == "isinstance(value, Number)"
-            and not _contains_raise(body[0])):
+    # first statement: the value -> array conversion (scalar wrapped into a 1-element array), stored in a local X
+    X = None
+    if body and not _contains_raise(body[0]):
+        st = body[0]
+        if isinstance(st, ast.Assign) and len(st.targets) == 1 and isinstance(st.targets[0], ast.Name):
+            v = st.value
+            if (isinstance(v, ast.IfExp) and ast.unparse(v.test) == f"isinstance({V}, Number)"
+                    and ast.unparse(v.body) in (f"np.array([{V}])", f"np.array([{V}], dtype=float)")
+                    and ast.unparse(v.orelse) in (f"np.array({V})", f"np.array({V}, dtype=float)", f"np.asarray({V})")):
+                X = st.targets[0].id
+    if X is None:
         fail(f, "times setter must start with the scalar / sequence conversion")
-    g_set_times = _collect(body[1:], "values", "self._start_time", lambda st: _assigns_to(st, "self._times"))
+    g_set_times = _collect(body[1:], X, "self._start_time", lambda st: _assigns_to(st, "self._times")
+                           and ast.unparse(st.value) == X)
 
     f = _setter(t_ro, "Readout", "start_time")
-    if [a.arg for a in f.args.args] != ["self", "value"]:
+    if len(f.args.args) != 2 or f.args.args[0].arg != "self":
         fail(f, "start_time setter signature")
-    g_set_start = _collect(body_no_doc(f), "self._times", "value", lambda st: _assigns_to(st, "self._start_time"))
+    V = f.args.args[1].arg
+    f = _norm(t_ro, f, c_ro)
+    g_set_start = _collect(body_no_doc(f), "self._times", V, lambda st: _assigns_to(st, "self._start_time")
+                           and ast.unparse(st.value) == V)
 
     f = find_func(t_rp, "__init__", "ReadoutProperties")
     if [a.arg for a in f.args.args] != ["self", "times", "start_time", "non_destructive"]:
         fail(f, "ReadoutProperties.__init__ signature")
+    f = _norm(t_rp, f, _cls_of(t_rp, "ReadoutProperties"))
     body = body_no_doc(f)
-    if not (body and _assigns_to(body[0], "times_1d") and ast.unparse(body[0].value) == "np.array(times, dtype=float)"):
-        fail(f, "ReadoutProperties.__init__ must start with times_1d = np.array(times, dtype=float)")
-    g_rp = _collect(body[1:], "times_1d", "start_time", lambda st: _calls(st, "calculate_steps"))
+    if not (body and isinstance(body[0], ast.Assign) and len(body[0].targets) == 1
+            and isinstance(body[0].targets[0], ast.Name)
+            and ast.unparse(body[0].value) in ("np.array(times, dtype=float)", "np.asarray(times, dtype=float)")):
+        fail(f, "ReadoutProperties.__init__ must start with <local> = np.array(times, dtype=float)")
+    X = body[0].targets[0].id
+    g_rp = _collect(body[1:], X, "start_time", lambda st: _calls(st, "calculate_steps"))
     # nothing after the steps computation may be validation; the remaining statements are plain stores
-    always, if_reset = _empty_table(find_func(t_det, "empty", "Detector"))
+    c_det = _cls_of(t_det, "Detector")
+    always, if_reset = _empty_table(_norm(t_det, find_func(t_det, "empty", "Detector"), c_det))
     progs = {}
     for b, cname in BUCKET_CLASS.items():
         if b == "Scene" and scene_fresh:
@@ -712,11 +796,16 @@ def extract(repo: Path) -> dict:
             progs[b] = _container_prog(repo, cname)
     read_stores = _read_stores(repo)
     _check_subclass_empty(repo)
-    sr = _set_readout_policy(find_func(t_det, "set_readout", "Detector"))
+    sr = _set_readout_policy(_norm(t_det, find_func(t_det, "set_readout", "Detector"), c_det))
     t_exp = parse(repo, "pyxel/exposure/exposure.py")
-    _check_run_pipeline_call(t_exp)
-    init_reset, loop_reset = loop_shape(find_func(t_exp, "run_pipeline"))
-    old_same = loop_shape(find_func(t_exp, "_run_exposure_pipeline_deprecated")) == (init_reset, loop_reset)
+    # normal form of the two loops: the local `detector = processor.detector` (whatever it is called) is substituted
+    # away by the normaliser and written back as the recognisers' vocabulary `detector`
+    ab = {"processor.detector": "detector"}
+    f_new = _norm(t_exp, find_func(t_exp, "run_pipeline"), abbreviate=ab)
+    f_old = _norm(t_exp, find_func(t_exp, "_run_exposure_pipeline_deprecated"), abbreviate=ab)
+    _check_run_pipeline_call(f_new)
+    init_reset, loop_reset = loop_shape(f_new)
+    old_same = loop_shape(f_old) == (init_reset, loop_reset)
     return dict(g_ndarray=g_ndarray, g_ctor=g_ctor, g_set_times=g_set_times, g_set_start=g_set_start, g_rp=g_rp,
                 e_always=always, e_if_reset=if_reset, progs=progs, read_stores=read_stores, sr=sr,
                 init_reset=init_reset, loop_reset=loop_reset, old_same=old_same)
